@@ -589,11 +589,15 @@ def _as(value, how):
 
 
 def _outcome_of(exc: BaseException) -> dict:
-    return {
+    out = {
         "outcome": "raised",
         "exc": type(exc).__name__,
         "msg": str(exc)[:300],
     }
+    title = getattr(exc, "title", None)  # pydantic: the class that refused
+    if isinstance(title, str):
+        out["title"] = title
+    return out
 
 
 def _resolve_source(src):
@@ -604,6 +608,18 @@ def _resolve_source(src):
         world = World(src["spec"])
         WORLDS[src["world"]] = world
     return world.root(src["root"])
+
+
+def _constraints(info) -> dict:
+    """Declared bounds of a field (annotated-types / pydantic metadata)."""
+    out = {}
+    for item in getattr(info, "metadata", None) or []:
+        for attr in ("ge", "gt", "le", "lt", "max_length", "min_length",
+                     "pattern", "multiple_of"):
+            value = getattr(item, attr, None)
+            if value is not None and isinstance(value, (int, float, str)):
+                out[attr] = value
+    return out
 
 
 def h_info():
@@ -617,6 +633,7 @@ def h_info():
                 f: {
                     "annotation": str(info.annotation),
                     "required": info.is_required(),
+                    "constraints": _constraints(info),
                 }
                 for f, info in cls.model_fields.items()
             }
@@ -713,6 +730,134 @@ def _collect_models(obj, pools, seen):
             _collect_models(item, pools, seen)
 
 
+def _shift(value, by=0.125):
+    if isinstance(value, bool):
+        return value
+    if isinstance(value, (int, float)):
+        return value + by
+    if isinstance(value, (list, tuple)):
+        return [_shift(item, by) for item in value]
+    return value
+
+
+def _apply_edits(pools, roots, rng, seed):
+    """A few in-place edits of live objects (same Python objects, same
+    identifiers): field values, geometry, paths, features, and the membership
+    of lists. Never produces an arrangement the data classes would refuse if
+    it were constructed afresh. An edit the model refuses (frozen, validated
+    assignment) is recorded as "refused"."""
+    done = []
+
+    def pick(name):
+        pool = pools.get(name) or []
+        return rng.choice(pool) if pool else None
+
+    # clip annotations / predictions that a clip evaluation's matches speak
+    # about keep their sound events
+    protected = set()
+    for ce in pools.get("ClipEvaluation") or []:
+        protected.add(id(ce.annotations))
+        protected.add(id(ce.predictions))
+
+    def toggle(items, candidate):
+        """Remove the last member or add one (the same object may not be
+        listed twice by this edit)."""
+        if items and (candidate is None or rng.random() < 0.5):
+            items.pop()
+            return True
+        if candidate is not None and all(candidate is not x for x in items):
+            items.append(candidate)
+            return True
+        return False
+
+    for _ in range(rng.randint(2, 6)):
+        try:
+            kind = rng.randrange(16)
+            if kind == 0 and (u := pick("User")) is not None:
+                u.name = f"edited {seed} {rng.randrange(1000)}"
+                done.append("user.name")
+            elif kind == 1 and (r := pick("Recording")) is not None:
+                r.latitude = rng.uniform(-90, 90)
+                r.rights = f"rights {rng.randrange(1000)}"
+                done.append("recording.latitude/rights")
+            elif kind == 2 and (r := pick("Recording")) is not None:
+                if toggle(r.tags, pick("Tag")):
+                    done.append("recording.tags")
+            elif kind == 3 and (a := pick("SoundEventAnnotation")) is not None:
+                a.tags.reverse()
+                if a.notes:
+                    a.notes[0].message = f"edited {rng.randrange(1000)}"
+                    a.notes[0].is_issue = not a.notes[0].is_issue
+                done.append("annotation.tags/notes")
+            elif kind == 4 and (c := pick("Clip")) is not None:
+                c.end_time = c.end_time + 1.0
+                done.append("clip.end_time")
+            elif kind == 5 and (p_ := pick("SoundEventPrediction")) is not None:
+                p_.score = rng.random()
+                done.append("prediction.score")
+            elif kind == 6 and (m := pick("Match")) is not None:
+                m.affinity = rng.random()
+                done.append("match.affinity")
+            elif kind == 7 and (t := pick("AnnotationTask")) is not None:
+                if t.status_badges:
+                    t.status_badges.pop()
+                done.append("task.badges")
+            elif kind == 8 and roots:
+                root = rng.choice(roots)
+                if hasattr(root, "description"):
+                    root.description = f"described {rng.randrange(1000)}"
+                if hasattr(root, "name"):
+                    root.name = f"name {rng.randrange(1000)}"
+                done.append("root.name/description")
+            elif kind == 9 and (se := pick("SoundEvent")) is not None:
+                if se.geometry is not None:
+                    se.geometry = type(se.geometry)(
+                        coordinates=_shift(se.geometry.coordinates)
+                    )
+                    done.append("sound_event.geometry")
+            elif kind == 10 and (r := pick("Recording")) is not None:
+                # same directory, another file name
+                r.path = r.path.parent / f"moved {rng.randrange(100)} {r.path.name}"
+                done.append("recording.path")
+            elif kind == 11 and (q := pick("Sequence")) is not None:
+                if toggle(q.sound_events, pick("SoundEvent")):
+                    done.append("sequence.sound_events")
+            elif kind == 12 and (r := pick("Recording")) is not None:
+                if toggle(r.owners, pick("User")):
+                    done.append("recording.owners")
+            elif kind == 13:
+                holder = pick(rng.choice(
+                    ["Clip", "SoundEvent", "Recording", "ClipAnnotation",
+                     "Sequence", "SoundEventPrediction"]
+                ))
+                feats = getattr(holder, "features", None)
+                if feats:
+                    f = feats[0]
+                    feats[0] = type(f)(term=f.term, value=f.value + 1.0)
+                    if len(feats) > 1 and rng.random() < 0.5:
+                        feats.pop()
+                    done.append("features")
+            elif kind == 14:
+                which = rng.choice(["ClipAnnotation", "ClipPrediction"])
+                parent = pick(which)
+                member = pick(
+                    "SoundEventAnnotation" if which == "ClipAnnotation"
+                    else "SoundEventPrediction"
+                )
+                if parent is not None and id(parent) not in protected:
+                    if toggle(parent.sound_events, member):
+                        done.append(f"{which}.sound_events")
+            elif kind == 15 and roots:
+                root = rng.choice(roots)
+                members = getattr(root, MEMBER_FIELD.get(_class_name(root), ""), None)
+                if members is not None and len(members) >= 2:
+                    members.pop(rng.randrange(len(members)))
+                    done.append("root.members")
+        except Exception:  # noqa: BLE001  (frozen model, validated assignment)
+            done.append("refused")
+    return done
+
+
 def h_edit_loaded(handle, seed):
     """Edit, in place, objects of a collection that ``load`` returned (the
     way a program loads a project, corrects an annotation and saves it)."""
@@ -723,53 +868,7 @@ def h_edit_loaded(handle, seed):
         return {"outcome": "skipped"}
     pools = {}
     _collect_models(root, pools, set())
-    rng = random.Random(seed)
-    done = []
-
-    def pick(name):
-        pool = pools.get(name) or []
-        return rng.choice(pool) if pool else None
-
-    for _ in range(rng.randint(2, 6)):
-        kind = rng.randrange(9)
-        if kind == 0 and (u := pick("User")) is not None:
-            u.name = f"edited {seed} {rng.randrange(1000)}"
-            done.append("user.name")
-        elif kind == 1 and (r := pick("Recording")) is not None:
-            r.latitude = rng.uniform(-90, 90)
-            r.rights = f"rights {rng.randrange(1000)}"
-            done.append("recording.latitude/rights")
-        elif kind == 2 and (r := pick("Recording")) is not None:
-            if r.tags and rng.random() < 0.5:
-                r.tags.pop()
-            elif (t := pick("Tag")) is not None:
-                r.tags.append(t)
-            done.append("recording.tags")
-        elif kind == 3 and (a := pick("SoundEventAnnotation")) is not None:
-            a.tags.reverse()
-            if a.notes:
-                a.notes[0].message = f"edited {rng.randrange(1000)}"
-                a.notes[0].is_issue = not a.notes[0].is_issue
-            done.append("annotation.tags/notes")
-        elif kind == 4 and (c := pick("Clip")) is not None:
-            c.end_time = c.end_time + 1.0
-            done.append("clip.end_time")
-        elif kind == 5 and (p_ := pick("SoundEventPrediction")) is not None:
-            p_.score = rng.random()
-            done.append("prediction.score")
-        elif kind == 6 and (m := pick("Match")) is not None:
-            m.affinity = rng.random()
-            done.append("match.affinity")
-        elif kind == 7 and (t := pick("AnnotationTask")) is not None:
-            if t.status_badges:
-                t.status_badges.pop()
-            done.append("task.badges")
-        elif kind == 8:
-            if hasattr(root, "description"):
-                root.description = f"described {rng.randrange(1000)}"
-            if hasattr(root, "name"):
-                root.name = f"name {rng.randrange(1000)}"
-            done.append("root.name/description")
+    done = _apply_edits(pools, [root], random.Random(seed), seed)
     return {"outcome": "ack", "edits": done, **describe(root)}
 
 
@@ -782,53 +881,17 @@ def h_touch(world, seed):
     w = WORLDS.get(world)
     if w is None:
         return {"outcome": "skipped"}
-    rng = random.Random(seed)
-    done = []
-
-    def pick(pool):
-        return rng.choice(pool) if pool else None
-
-    for _ in range(rng.randint(2, 6)):
-        kind = rng.randrange(9)
-        if kind == 0 and (u := pick(w.users)) is not None:
-            u.name = f"touched {seed} {rng.randrange(1000)}"
-            done.append("user.name")
-        elif kind == 1 and (r := pick(w.recordings)) is not None:
-            r.latitude = rng.uniform(-90, 90)
-            r.rights = f"rights {rng.randrange(1000)}"
-            done.append("recording.latitude/rights")
-        elif kind == 2 and (r := pick(w.recordings)) is not None and w.tags:
-            if r.tags and rng.random() < 0.5:
-                r.tags.pop()
-            else:
-                r.tags.append(rng.choice(w.tags))
-            done.append("recording.tags")
-        elif kind == 3 and (a := pick(w.se_annotations)) is not None:
-            a.tags.reverse()
-            if a.notes:
-                a.notes[0].message = f"edited {rng.randrange(1000)}"
-                a.notes[0].is_issue = not a.notes[0].is_issue
-            done.append("annotation.tags/notes")
-        elif kind == 4 and (c := pick(w.clips)) is not None:
-            c.end_time = c.end_time + 1.0
-            done.append("clip.end_time")
-        elif kind == 5 and (p := pick(w.se_predictions)) is not None:
-            p.score = rng.random()
-            done.append("prediction.score")
-        elif kind == 6 and (m := pick(w.matches)) is not None:
-            m.affinity = rng.random()
-            done.append("match.affinity")
-        elif kind == 7 and (t := pick(w.tasks)) is not None:
-            if t.status_badges:
-                t.status_badges.pop()
-            done.append("task.badges")
-        elif kind == 8 and w.roots:
-            root = w.roots[rng.choice(sorted(w.roots))]
-            if hasattr(root, "description"):
-                root.description = f"described {rng.randrange(1000)}"
-            if hasattr(root, "name"):
-                root.name = f"name {rng.randrange(1000)}"
-            done.append("root.name/description")
+    pools = {
+        "User": w.users, "Recording": w.recordings, "Tag": w.tags,
+        "Clip": w.clips, "SoundEvent": w.sound_events,
+        "Sequence": w.sequences, "SoundEventAnnotation": w.se_annotations,
+        "ClipAnnotation": w.clip_annotations,
+        "SoundEventPrediction": w.se_predictions,
+        "ClipPrediction": w.clip_predictions, "Match": w.matches,
+        "ClipEvaluation": w.clip_evaluations, "AnnotationTask": w.tasks,
+    }
+    roots = [w.roots[k] for k in sorted(w.roots)]
+    done = _apply_edits(pools, roots, random.Random(seed), seed)
     return {"outcome": "ack", "edits": done}
 
 
@@ -1018,7 +1081,9 @@ def _dump(value, mode):
     from pydantic import BaseModel  # noqa: PLC0415
 
     if isinstance(value, BaseModel):
-        return value.model_dump(mode=mode)
+        # by field name, whatever the class's serialisation defaults are:
+        # this is the input of dict / JSON *validation*, not a document
+        return value.model_dump(mode=mode, by_alias=False)
     if isinstance(value, (list, tuple)):
         return [_dump(item, mode) for item in value]
     if mode == "json":
@@ -1170,9 +1235,16 @@ def h_arrange(spec, target, doc_path, handle, base_spec=None):
                         for j in spec[pool][idx].get("sound_events", [])
                     ]
                     try:
-                        live.sound_events[:] = new
-                    except TypeError:
-                        live.sound_events = new
+                        try:
+                            live.sound_events[:] = new
+                        except TypeError:
+                            live.sound_events = new
+                        want_clip = base_world.clips[spec[pool][idx]["clip"]]
+                        if live.clip is not want_clip:
+                            # the live object is moved to another clip
+                            live.clip = want_clip
+                    except Exception:  # noqa: BLE001  (frozen / validated
+                        continue       # assignment: no in-place history)
                     kwargs[key] = live
             # a match of the base world that keeps its identifier is the
             # *live* object too, brought to its new content by assignment
@@ -1202,6 +1274,24 @@ def h_arrange(spec, target, doc_path, handle, base_spec=None):
     elif cls_name == "AnnotationProject":
         cls = data.AnnotationProject
         kwargs = world.root_kwargs("annotation_project")
+        if base_world is not None:
+            # live tasks of the base world (same identifiers), moved to
+            # their new clip by assignment
+            root = spec["roots"]["annotation_project"]
+            for k, j in enumerate(root.get("tasks", [])):
+                if not (
+                    j < len(base_spec["tasks"])
+                    and base_spec["tasks"][j]["uuid"] == spec["tasks"][j]["uuid"]
+                ):
+                    continue
+                live = base_world.tasks[j]
+                try:
+                    want_clip = base_world.clips[spec["tasks"][j]["clip"]]
+                    if live.clip is not want_clip:
+                        live.clip = want_clip
+                except Exception:  # noqa: BLE001
+                    continue
+                kwargs["tasks"][k] = live
     else:
         raise ValueError(cls_name)
 
@@ -1218,9 +1308,20 @@ def h_arrange(spec, target, doc_path, handle, base_spec=None):
     v_aoef, o_aoef = _verdict(lambda: sio.load(doc_path))
     out["paths"]["aoef"] = v_aoef
     canons = {}
+    # fields of the target that no path was given a value for take their
+    # default on each path separately (a fresh identifier, the time of the
+    # call): not part of "the same object whatever the path"
+    defaulted = set(cls.model_fields) - set(kwargs)
     for name, obj in (("ctor", o_ctor), ("dict", o_dict), ("json", o_json)):
         if obj is not None:
-            canons[name] = canon(obj)
+            c = canon(obj)
+            body = c["root"]
+            if isinstance(body, dict) and "__ref" in body:
+                body = c["defs"][body["__ref"]]
+            if isinstance(body, dict):
+                for field in defaulted:
+                    body.pop(field, None)
+            canons[name] = c
     out["canons"] = canons
     if o_aoef is not None:
         OBJECTS[handle] = o_aoef
@@ -1260,9 +1361,17 @@ def _array_payload(arr, with_data=True):
     return out
 
 
-def _recording_from(spec):
+
+
+def _recording_from(spec, fresh=False):
+    """The Recording a caller holds for this file: the same live object from
+    call to call (whatever a library call attached to it stays attached),
+    unless the caller built a new one."""
+    key = _jtext(spec)
+    if not fresh and key in RECORDINGS:
+        return RECORDINGS[key]
     data = _data()
-    return data.Recording(
+    rec = data.Recording(
         uuid=uuidlib.UUID(spec["uuid"]),
         path=pathlib.Path(spec["path"]),
         duration=spec["duration"],
@@ -1270,6 +1379,8 @@ def _recording_from(spec):
         samplerate=spec["samplerate"],
         time_expansion=spec.get("time_expansion", 1.0),
     )
+    RECORDINGS[key] = rec
+    return rec
 
 
 @register("a_from_file")
@@ -1291,18 +1402,28 @@ def a_from_file(path, time_expansion=1.0, compute_hash=True):
     }
 
 
-@register("a_load_clip")
-def a_load_clip(recording, start, end, handle, audio_dir=None, audio_as="str"):
-    from soundevent import audio  # noqa: PLC0415
-
-    data = _data()
-    rec = _recording_from(recording)
-    clip = data.Clip(recording=rec, start_time=start, end_time=end)
+def _audio_kwargs(audio_dir, audio_as):
     kwargs = {}
     if audio_dir is not None and str(audio_dir).startswith("cwd:"):
         os.chdir(str(audio_dir)[4:])
     elif audio_dir is not None:
         kwargs["audio_dir"] = _as(audio_dir, audio_as)
+    return kwargs
+
+
+@register("a_load_clip")
+def a_load_clip(recording, start, end, handle, audio_dir=None, audio_as="str",
+                fresh=False):
+    from soundevent import audio  # noqa: PLC0415
+
+    data = _data()
+    try:
+        rec = _recording_from(recording, fresh)
+        clip = data.Clip(recording=rec, start_time=start, end_time=end)
+    except Exception as exc:
+        # the data classes refuse this recording / clip: not an input
+        return {**_outcome_of(exc), "outcome": "refused"}
+    kwargs = _audio_kwargs(audio_dir, audio_as)
     try:
         arr = audio.load_clip(clip, **kwargs)
     except Exception as exc:
@@ -1312,15 +1433,15 @@ def a_load_clip(recording, start, end, handle, audio_dir=None, audio_as="str"):
 
 
 @register("a_load_recording")
-def a_load_recording(recording, handle, audio_dir=None, audio_as="str"):
+def a_load_recording(recording, handle, audio_dir=None, audio_as="str",
+                     fresh=False):
     from soundevent import audio  # noqa: PLC0415
 
-    rec = _recording_from(recording)
-    kwargs = {}
-    if audio_dir is not None and str(audio_dir).startswith("cwd:"):
-        os.chdir(str(audio_dir)[4:])
-    elif audio_dir is not None:
-        kwargs["audio_dir"] = _as(audio_dir, audio_as)
+    try:
+        rec = _recording_from(recording, fresh)
+    except Exception as exc:
+        return {**_outcome_of(exc), "outcome": "refused"}
+    kwargs = _audio_kwargs(audio_dir, audio_as)
     try:
         arr = audio.load_recording(rec, **kwargs)
     except Exception as exc:
